@@ -208,3 +208,25 @@ Proof.
     destruct Ht as [->|[<-|[<-|[]]]]; cbn in Hr;
       repeat (destruct Hr as [Hr|Hr]; [subst r; subst k; first [now apply H1|now apply H2|now apply H3|now apply H4]|]); destruct Hr.
 Qed.
+
+(** ---- command level: a row removed by one branch while the other branch only dropped a column.
+    The library reports the record unresolved with NO unresolved column; `wrgl merge` (merge tool
+    unavailable) must refuse - concluding the merge would silently bring row 2 back. ---- *)
+Definition cm_base := mk [s_id; s_a; s_b; s_c] [s_id] [[s_1; s_x; s_y; s_u]; [s_2; s_a; s_s; s_d]; [s_3; s_z; s_x; s_c]].
+Definition cm_b1 := mk [s_id; s_a; s_b] [s_id] [[s_1; s_x; s_y]; [s_2; s_a; s_s]; [s_3; s_z; s_x]].
+Definition cm_b2 := mk [s_id; s_a; s_b; s_c] [s_id] [[s_1; s_x; s_y; s_u]; [s_3; s_z; s_x; s_c]].
+
+Lemma cmd_refuses_witness :
+  cmd_merge cm_base [cm_b1; cm_b2] true = CmdRefused /\
+  cmd_merge cm_base [cm_b1; cm_b2] false = CmdRefused /\
+  exists o kr, run_merge cm_base [cm_b1; cm_b2] 0 1 false = Ok o /\ In kr (mo_recs o) /\
+    k_key kr = [s_2] /\ r_resolved (k_res kr) = false /\ r_unres (k_res kr) = [] /\
+    (* had the record been dropped, the base row would be re-added: it is among the rows
+       the collector produces when the key is not discarded (policy 0) *)
+    In [s_2; s_a; s_s; s_d] (collected_rows cm_base (mo_recs o) 0).
+Proof.
+  split; [vm_compute; reflexivity|]. split; [vm_compute; reflexivity|].
+  eexists. eexists. split; [vm_compute; reflexivity|].
+  split; [right; left; reflexivity|]. split; [reflexivity|]. split; [reflexivity|]. split; [reflexivity|].
+  vm_compute. tauto.
+Qed.
